@@ -57,10 +57,13 @@ def gen_case(base, prop, i, mode='plain'):
                                  main_bias=0.05, path_bias=(sparse, 0.6))
             ops.insert(0, {'op': 'check'})
         else:
-            ops, mix = W.gen_ops(rng, w)
+            ops, mix = W.gen_ops(rng, w, main_bias=rng.choice(
+                (0.35, 0.35, 0.35, 0.1, 0.0)))
         if mode == 'race':
             ops = add_races(rng, w, ops)
         else:
+            if not sparse and rng.random() < 0.08:
+                ops = directory_only_prefix(rng, w) + ops
             ops = add_late_registration(rng, w, ops)
         return {'prop': prop, 'world': w, 'ops': ops, 'mix': mix,
                 'mode': mode}
@@ -68,7 +71,12 @@ def gen_case(base, prop, i, mode='plain'):
         w = W.gen_world(rng, 'c11')
         bias = [d['name'] for d in w['defaults'] if d['dep']] + \
             w['old_names']
-        ops, mix = W.gen_ops(rng, w, bias=bias or None)
+        # some histories leave the main file alone for long stretches:
+        # several directory-only rebuilds in a row
+        ops, mix = W.gen_ops(rng, w, bias=bias or None,
+                             main_bias=rng.choice((0.35, 0.35, 0.1, 0.0)))
+        if rng.random() < 0.12:
+            ops = directory_only_prefix(rng, w) + ops
         ops = add_late_registration(rng, w, ops)
         return {'prop': prop, 'world': w, 'ops': ops, 'mix': mix,
                 'mode': mode}
@@ -186,6 +194,45 @@ def sparsify(rng, w):
         'rules': {x: W.gen_rule_for(rng, w, x, depth=0)},
         'style': W.style_for(rng, fn)}
     return rel + '/' + fn
+
+
+def directory_only_prefix(rng, w):
+    """Directed prefix for deprecation histories: the main file exists and
+    stays untouched while the policy directory is rebuilt twice - first with
+    the old-name override still in place, then with it removed - and the
+    enforcer is asked in between."""
+    dirs = [x for x in w['conf']['policy_dirs']
+            if x not in ('gone.d', 'late.d')]
+    if not w['old_names'] or not dirs:
+        return []
+    rel = W.dir_rel(dirs[0])
+    old = rng.choice(w['old_names'])
+    main = 'etc/' + W.main_name(w)
+    if main not in w['files']:
+        w['files'][main] = {'rules': W.gen_mapping(rng, w, kmax=2),
+                            'style': W.style_for(rng, main)}
+    f1, f2 = rel + '/a.yaml', rel + '/B.yaml'
+    ov = W.gen_rule_for(rng, w, old)
+    w['files'][f1] = {'rules': {old: ov}, 'style': 'yaml_dq'}
+    w['files'].setdefault(f2, {'rules': {}, 'style': 'json'})
+    if rel not in w['mkdirs']:
+        w['mkdirs'].append(rel)
+    dt = lambda: rng.choice(W.DTS)        # noqa
+    second = rng.choice((
+        {'op': 'unlink', 'path': f1, 'dt': dt()},
+        {'op': 'empty', 'path': f1, 'dt': dt(), 'rules': {},
+         'style': 'yaml_dq'},
+        {'op': 'write', 'path': f1, 'dt': dt(), 'style': 'yaml_dq',
+         'rules': {n: a for n, a in W.gen_mapping(rng, w).items()
+                   if n != old}}))
+    return [{'op': 'check'},
+            rng.choice(({'op': 'touch', 'path': f2, 'dt': dt()},
+                        {'op': 'write', 'path': f2, 'dt': dt(),
+                         'rules': {n: a for n, a in
+                                   W.gen_mapping(rng, w).items()
+                                   if n != old}, 'style': 'json'})),
+            {'op': 'probe', 'i': rng.randrange(1 << 16)},
+            second, {'op': 'check'}]
 
 
 def add_late_registration(rng, w, ops):
